@@ -58,6 +58,13 @@ impl Copy for Timestamp {}
 impl Timestamp {
     uninterp spec fn total_nanos(&self) -> int;
 
+    // jiff: "The Unix epoch represented as a timestamp ... corresponds to 0 nanoseconds."
+    // (not used by the pinned tree; present so that a fix of IndexEntry::mtime that falls back to it is decidable)
+    #[verifier::external_body]
+    exec const UNIX_EPOCH: Timestamp
+        ensures Self::UNIX_EPOCH.total_nanos() == 0,
+    { Timestamp { _opaque: () } }
+
     // jiff: "Returns this timestamp as a number of seconds since the Unix epoch. This only returns the number of
     // whole seconds [fractional part truncated]"; second and nanosecond always have the same sign (or are zero).
     #[verifier::external_body]
@@ -120,11 +127,21 @@ pub assume_specification[ i32::cast_unsigned ](x: i32) -> (r: u32)
         x >= 0 ==> r as int == x as int,
         x < 0 ==> r as int == x as int + 0x1_0000_0000;
 
+// std: `i32::unsigned_abs`: "Computes the absolute value of self without any wrapping or panicking."
+// (not used by the pinned tree; present so that a tempting wrong repair of the negative sub-second case is decided)
+pub assume_specification[ i32::unsigned_abs ](x: i32) -> (r: u32)
+    ensures
+        r as int == (if x >= 0 { x as int } else { -(x as int) });
+
 // std: `i32::try_from(u32)` succeeds exactly when the value fits (vstd specifies the other integer pairs).
 pub assume_specification[ <i32 as TryFrom<u32>>::try_from ](x: u32) -> (r: Result<i32, <i32 as TryFrom<u32>>::Error>)
     ensures
         r.is_ok() <==> x <= i32::MAX,
         r.is_ok() ==> r.unwrap() as int == x as int;
+
+// std: `Result::unwrap_or` ("Returns the contained Ok value or a provided default").
+pub assume_specification<T, E>[ Result::<T, E>::unwrap_or ](x: Result<T, E>, d: T) -> (r: T)
+    ensures r == (match x { Ok(t) => t, Err(_) => d });
 
 // `assert_eq!(a, b)` (std macro; Verus cannot take its expansion: core::panicking::assert_failed): the obligation
 // "the two operands are equal" is kept as the precondition of this call-site shim (R4).
